@@ -1,16 +1,16 @@
-\* thorough: two calls, two Close callers per side, held POST and DELETE
+\* thorough: two calls against Close from both sides, DELETE and the idle timer; no faults
 SPECIFICATION MCSpec
 CONSTANTS
   Calls = {"k1", "k2"}
-  CCl = {"c1", "c2"}
-  SCl = {"s1", "s2"}
+  CCl = {"c1"}
+  SCl = {"s1"}
   Stateless = FALSE
   Timeout = TRUE
   Sse = TRUE
   Nested = FALSE
   Faults = {}
-  DelModes = {"hold"}
-  Helds = TRUE
+  DelModes = {}
+  Helds = FALSE
   Notifs = FALSE
   Cancels = FALSE
   AwaitHandlers = TRUE
